@@ -78,14 +78,14 @@ def topIds : ISch → List Str
 
 /-! ### a Python `dict[str, str]` in insertion order -/
 
-def get : List (Str × Str) → Str → Option Str
+def idGet : List (Str × Str) → Str → Option Str
   | [], _ => none
-  | (k', v') :: m, k => if k' = k then some v' else get m k
+  | (k', v') :: m, k => if k' = k then some v' else idGet m k
 
 /-- `m[k] = v` -/
-def put : List (Str × Str) → Str → Str → List (Str × Str)
+def idPut : List (Str × Str) → Str → Str → List (Str × Str)
   | [], k, v => [(k, v)]
-  | (k', v') :: m, k, v => if k' = k then (k, v) :: m else (k', v') :: put m k v
+  | (k', v') :: m, k, v => if k' = k then (k, v) :: m else (k', v') :: idPut m k v
 
 /-! ### resolver environment -/
 
@@ -171,7 +171,7 @@ a local pointer gets the current root in front, and under a root id with a direc
 regular file of the input directory gets that directory in front -/
 def mid (e : Env) (j : Str) : Res :=
   if isIdRef j then
-    match get e.ids j with
+    match idGet e.ids j with
     | some v => .ok v
     | none => .raised
   else
@@ -227,7 +227,7 @@ def InScope (e : Env) (r : Str) : Bool := resolveRefId e r != .unmodelled
 /-- `add_id(id_, path)`; `none` = `resolve_ref(path)` raised or is outside the model -/
 def addId (e : Env) (path : List Str) (i : Str) : Option Env :=
   match resolveRefId e (joinPath path) with
-  | .ok v => some { e with ids := put e.ids i v }
+  | .ok v => some { e with ids := idPut e.ids i v }
   | _ => none
 
 def addIds (e : Env) (path : List Str) : List Str → Option Env
